@@ -30,11 +30,12 @@ def seam():
 class AlgoCrash(Exception):
     """The algorithm under check raised: C01's business; other checks count it."""
 
-    def __init__(self, where, exc, tb):
+    def __init__(self, where, exc, tb, t=None):
         super().__init__("%s: %s: %s" % (where, type(exc).__name__, exc))
         self.where = where
         self.exc = exc
         self.tb = tb
+        self.t = t
 
 
 def partitions_of(algo):
@@ -64,6 +65,8 @@ def partitions_of(algo):
                     visit(x, depth + 1)
 
     visit(algo)
+    if not out and type(algo).__name__ not in ("POO", "GPO", "PCT", "VPCT"):
+        raise HarnessError("cannot observe: %s owns no Partition under the attribute 'partition'" % type(algo).__name__)
     return out
 
 
@@ -202,6 +205,10 @@ def execute(cfg, script, expect, changed_pos, T, reward_fn, oracles, learner_cla
     sm.choice_log.clear()
     ctx = Ctx(cfg, src, changed_pos)
     ctx.seam = sm
+    ctx.reward_fn = reward_fn
+    ctx.learner_classes = learner_classes
+    ctx.labels = labels
+    sig0 = sm.state_sig()
     ctx.rec.activate()
     if learner_classes:
         from . import ledger
@@ -233,10 +240,10 @@ def execute(cfg, script, expect, changed_pos, T, reward_fn, oracles, learner_cla
         except (Violation, HarnessError):
             raise
         except StepBudget.Hang:
-            raise AlgoCrash("pull", RuntimeError("did not return within the branch budget (hang)"), "")
+            raise AlgoCrash("pull", RuntimeError("did not return within the branch budget (hang)"), "", t)
         except Exception as e:  # noqa
             ctx.src_points = src.points
-            raise AlgoCrash("pull", e, traceback.format_exc())
+            raise AlgoCrash("pull", e, traceback.format_exc(), t)
         if x is None and not any(getattr(o, "wants_none", False) for o in oracles):
             # the algorithm has nothing left to propose (e.g. StoSOO with a saturated depth cap): the run ends
             # here for every check except C01, which judges the None itself
@@ -258,15 +265,38 @@ def execute(cfg, script, expect, changed_pos, T, reward_fn, oracles, learner_cla
         except (Violation, HarnessError):
             raise
         except StepBudget.Hang:
-            raise AlgoCrash("receive_reward", RuntimeError("did not return within the branch budget (hang)"), "")
+            raise AlgoCrash("receive_reward", RuntimeError("did not return within the branch budget (hang)"), "", t)
         except Exception as e:  # noqa
             ctx.src_points = src.points
-            raise AlgoCrash("receive_reward", e, traceback.format_exc())
+            raise AlgoCrash("receive_reward", e, traceback.format_exc(), t)
         for o in oracles:
             o.after_round(ctx)
     for o in oracles:
         o.end(ctx)
+    if sm.state_sig() != sig0 or sm.unenumerated:
+        # a random draw that did not go through the seam (another np.random entry point, a name bound at import
+        # time, a private Generator seeded from the global one): the harness does not own this execution
+        sm.unenumerated = 0
+        raise HarnessError("cannot own the randomness of %s: NumPy's global generator advanced during an execution "
+                           "(a draw bypassed the RNG seam)" % cfg.get("algo"))
     return src.points, ctx
+
+
+def call_lib(what, fn):
+    """Run a library call made by an ORACLE (get_last_point, a learner's pull, ...): an exception or a hang of
+    the library there is a crash of the code under check, not a harness error."""
+    try:
+        return fn()
+    except (Violation, HarnessError, AlgoCrash):
+        raise
+    except StepBudget.Hang:
+        raise AlgoCrash(what, RuntimeError("did not return within the branch budget (hang)"), "")
+    except Exception as e:  # noqa
+        raise AlgoCrash(what, e, traceback.format_exc())
+    finally:
+        g = _GUARD
+        if g:
+            g.reset()
 
 
 def soft_violation(ctx, v, T=None):
@@ -387,6 +417,9 @@ class StopEnumeration(Exception):
     pass
 
 
+_KNOWN_CACHE = {}
+
+
 class DigestOracle(Oracle):
     """States / transitions accounting: canonical digest of the observable state after
     construction and after every round.  Lives for a whole enumeration: digests of the
@@ -451,7 +484,20 @@ def run_enumeration(cfg, T, reward_fn, make_oracles, stats, prefix=(), budget_ki
             oracles = oracles + [dg]
         pts = None
         if len(stats.violations) >= 3:
-            raise StopEnumeration()
+            # stop a configuration whose every execution fails - but listed known findings do not count: behind
+            # them the enumeration goes on, so that a DIFFERENT failure of the same configuration is still found
+            from . import runner as _runner
+
+            kn = _KNOWN_CACHE.setdefault("k", _runner.load_known())
+            prop = _KNOWN_CACHE.get("prop")
+            # (a known finding that strikes in the constructor or in the very first pull leaves nothing behind it)
+            hard = [v for v in stats.violations if not (prop and _runner.match_known(prop, v, kn))
+                    or (isinstance(v.get("details"), dict) and v["details"].get("round") in (0, 1))]
+            if len(hard) >= 3:
+                raise StopEnumeration()
+            if len(stats.violations) > 40:
+                # keep one representative per known finding and a count (memory)
+                del stats.violations[20:-10]
         try:
             def hook(ctx):
                 ctx.extra["cfg_hash"] = cfg_hash
